@@ -346,6 +346,7 @@ package ice
 //@   site call IsClosed#1 ghost muxClosed := result
 //@   site call IsClosed#1 ghost asked := true
 //@   ensures C12 C13 a-closed-mux-hands-out-nothing: asked && muxClosed ==> result0 == nil && result1 != nil
+//@   ensures C12 a-new-connection-is-registered-in-the-table-of-the-requested-family: created ==> ite(famKnown && !v4, has(m.connsIPv6, ufrag), has(m.connsIPv4, ufrag))
 //@   ensures C12 C13 an-open-mux-that-was-asked-on-its-own-address-hands-out-a-handle: asked && !muxClosed ==> result1 == nil && result0 != nil
 //@   ghostvar v4 bool = false
 //@   ghostvar famKnown bool = false
